@@ -4,6 +4,11 @@ that the manifest stays valid and consistent while checks are added)."""
 import json, sys
 
 CHECKS = {
+ "C03": ("exploration",
+         "runtime monitor: set of shipped files (real Pack in 3 modes + one-package bundle build) vs an independent segment-wise glob reference over a fixed path universe; exhaustive single rules and ordered pairs",
+         "For every generated rule file the files actually shipped by Pack (ignore on, ignore off, through a dereferenced external directory) and left in a bundle package directory are compared with the verdict of ref.Excluded (a regexp-free, segment-wise implementation of the documented rule language) for every path of the universe. Exhaustive over all single rules (3048) and all ordered pairs of a rule core; PRNG files with comments, blanks, padding and CRLF; thorough adds ordered triples and the full 323-path universe.",
+         "Directory entries are not judged; when the dereferenced link's own path is excluded no claim is made about paths below it; undocumented pattern forms are excluded from the universe.",
+         "DESIGN.md §5 C03"),
  "C15": ("exploration",
          "runtime reference interpreter of the entry list vs the destination tree read back with Lstat/Readlink; exhaustive short sequences x tar formats x privilege",
          "A reference interpreter reads each entry sequence into an abstract tree (last entry per path wins, implicit parents without metadata, directory metadata final); the real Unpack runs as root and as uid 65534 inside a chroot and the destination is compared field by field (kind, content, permission bits, mtime, link target, no extra paths). Conflict-free representable sequences must unpack; hard link / device / fifo entries (also inserted at every position of PRNG sequences) must make it fail.",
